@@ -59,6 +59,9 @@ type tr struct {
 	fieldOf  map[*types.Var]string
 	closedOf map[*types.Var]*types.Var // map/slice field of a struct that has a `closed bool` field -> that field
 	insID    map[*types.Var]int
+	chanID   map[*types.Var]int  // pseudo field "+chan" of channel fields that are both closed and sent to
+	chClosed map[*types.Var]bool
+	chSent   map[*types.Var]bool
 }
 
 func short(path string) string {
@@ -94,6 +97,70 @@ func (t *tr) insField(v *types.Var) (int, bool) {
 	t.insID[v] = id
 	t.fieldNm = append(t.fieldNm, nm+"+insert")
 	return id, true
+}
+
+// chanField is the pseudo field "<struct>.<field>+send" of a channel-typed field that some function closes and some
+// function sends to.  A send on a closed channel panics, so every send must be ordered with the close; the idiom in
+// this code base is "unpublish the channel's owner under the mutex, then close": it needs every send to happen under
+// that mutex.  Each x.f <- v is a write access to the pseudo field (so all sends must hold a common mutex); the
+// close itself is not an access (it happens after the critical section that unpublished the owner).
+func (t *tr) chanField(v *types.Var) (int, bool) {
+	nm, ok := t.fieldOf[v]
+	if !ok || !t.chClosed[v] || !t.chSent[v] {
+		return 0, false
+	}
+	if id, ok := t.chanID[v]; ok {
+		return id, true
+	}
+	id := len(t.fieldNm)
+	t.chanID[v] = id
+	t.fieldNm = append(t.fieldNm, nm+"+send")
+	return id, true
+}
+
+// collectChanOps records which channel fields are closed and which are sent to, anywhere in the loaded packages.
+func (t *tr) collectChanOps(pkgs []*packages.Package) {
+	for _, pkg := range pkgs {
+		fieldVar := func(e ast.Expr) *types.Var {
+			for {
+				if p, ok := e.(*ast.ParenExpr); ok {
+					e = p.X
+					continue
+				}
+				break
+			}
+			sel, ok := e.(*ast.SelectorExpr)
+			if !ok {
+				return nil
+			}
+			if s := pkg.TypesInfo.Selections[sel]; s != nil && s.Kind() == types.FieldVal {
+				if v, ok := s.Obj().(*types.Var); ok {
+					return v
+				}
+			}
+			return nil
+		}
+		for _, file := range pkg.Syntax {
+			if strings.HasSuffix(pkg.Fset.Position(file.Pos()).Filename, "_test.go") {
+				continue
+			}
+			ast.Inspect(file, func(n ast.Node) bool {
+				switch x := n.(type) {
+				case *ast.SendStmt:
+					if v := fieldVar(x.Chan); v != nil {
+						t.chSent[v] = true
+					}
+				case *ast.CallExpr:
+					if id, ok := x.Fun.(*ast.Ident); ok && id.Name == "close" && len(x.Args) == 1 {
+						if v := fieldVar(x.Args[0]); v != nil {
+							t.chClosed[v] = true
+						}
+					}
+				}
+				return true
+			})
+		}
+	}
 }
 
 func (t *tr) field(v *types.Var) (int, bool) {
@@ -232,6 +299,7 @@ func (t *tr) nodeInstrs(f *fn, n ast.Node, out *[]instr) {
 	writes := map[*ast.SelectorExpr]bool{}
 	inserts := map[*ast.SelectorExpr]bool{}
 	atomics := map[*ast.SelectorExpr]bool{}
+	chanOps := map[*ast.SelectorExpr]bool{}
 	baseSel := func(e ast.Expr) *ast.SelectorExpr {
 		for {
 			switch x := e.(type) {
@@ -281,6 +349,10 @@ func (t *tr) nodeInstrs(f *fn, n ast.Node, out *[]instr) {
 			if b := baseSel(s.X); b != nil {
 				writes[b] = true
 			}
+		case *ast.SendStmt:
+			if b, ok := s.Chan.(*ast.SelectorExpr); ok {
+				chanOps[b] = true
+			}
 		case *ast.DeferStmt:
 			deferCall = s.Call
 		case *ast.GoStmt:
@@ -323,6 +395,11 @@ func (t *tr) nodeInstrs(f *fn, n ast.Node, out *[]instr) {
 					}
 					if inserts[e] {
 						if id, ok := t.insField(v); ok {
+							*out = append(*out, instr{op: "RAccess", a: id, w: true})
+						}
+					}
+					if chanOps[e] {
+						if id, ok := t.chanField(v); ok {
 							*out = append(*out, instr{op: "RAccess", a: id, w: true})
 						}
 					}
@@ -456,12 +533,57 @@ func (t *tr) collectLocals(f *fn) {
 		}
 		return false
 	}
+	// a local is fresh when every assignment to it in this function (x := ..., or `var x *T` followed by x = ...)
+	// stores a newly created object; parameters and results are never fresh
+	assigned, freshAssigned := map[types.Object]int{}, map[types.Object]int{}
+	defer func() {
+		// assignments made by nested function literals count as not fresh
+		ast.Inspect(f.body, func(n ast.Node) bool {
+			fl, ok := n.(*ast.FuncLit)
+			if !ok {
+				return true
+			}
+			ast.Inspect(fl.Body, func(m ast.Node) bool {
+				if as, ok := m.(*ast.AssignStmt); ok {
+					for _, l := range as.Lhs {
+						if id, ok := l.(*ast.Ident); ok {
+							if obj := f.pkg.TypesInfo.Uses[id]; obj != nil {
+								assigned[obj]++
+							}
+						}
+					}
+				}
+				return true
+			})
+			return false
+		})
+		for obj, n := range assigned {
+			if n > 0 && freshAssigned[obj] == n && !f.isParam(obj) {
+				f.fresh[obj] = true
+			}
+		}
+	}()
 	ast.Inspect(f.body, func(n ast.Node) bool {
 		if _, ok := n.(*ast.FuncLit); ok {
 			return false
 		}
 		as, ok := n.(*ast.AssignStmt)
-		if !ok || len(as.Lhs) != len(as.Rhs) {
+		if !ok {
+			return true
+		}
+		if len(as.Lhs) != len(as.Rhs) {
+			// x, err = f(): not a fresh object
+			for _, l := range as.Lhs {
+				if id, ok := l.(*ast.Ident); ok {
+					obj := f.pkg.TypesInfo.Defs[id]
+					if obj == nil {
+						obj = f.pkg.TypesInfo.Uses[id]
+					}
+					if obj != nil {
+						assigned[obj]++
+					}
+				}
+			}
 			return true
 		}
 		for i, l := range as.Lhs {
@@ -476,8 +598,11 @@ func (t *tr) collectLocals(f *fn) {
 			if obj == nil {
 				continue
 			}
-			if as.Tok == token.DEFINE && isFresh(as.Rhs[i]) {
-				f.fresh[obj] = true
+			if _, isVar := obj.(*types.Var); isVar && obj.Parent() != nil && obj.Parent() != f.pkg.Types.Scope() {
+				assigned[obj]++
+				if isFresh(as.Rhs[i]) {
+					freshAssigned[obj]++
+				}
 			}
 			if g := t.target(f.pkg, as.Rhs[i]); g != nil {
 				f.fvars[obj] = append(f.fvars[obj], g)
@@ -485,6 +610,11 @@ func (t *tr) collectLocals(f *fn) {
 		}
 		return true
 	})
+}
+
+// isParam: obj is a parameter, result or receiver of the enclosing declaration (its value comes from the caller)
+func (f *fn) isParam(obj types.Object) bool {
+	return obj.Pos() < f.body.Pos() || obj.Pos() > f.body.End()
 }
 
 func (t *tr) translate(f *fn) {
@@ -543,8 +673,9 @@ func main() {
 		os.Exit(1)
 	}
 	sort.Slice(pkgs, func(i, j int) bool { return pkgs[i].PkgPath < pkgs[j].PkgPath })
-	t := &tr{fieldID: map[*types.Var]int{}, classID: map[string]int{}, fnByObj: map[*types.Func]*fn{}, fnByLit: map[*ast.FuncLit]*fn{}, fieldOf: map[*types.Var]string{}, closedOf: map[*types.Var]*types.Var{}, insID: map[*types.Var]int{}}
+	t := &tr{fieldID: map[*types.Var]int{}, classID: map[string]int{}, fnByObj: map[*types.Func]*fn{}, fnByLit: map[*ast.FuncLit]*fn{}, fieldOf: map[*types.Var]string{}, closedOf: map[*types.Var]*types.Var{}, insID: map[*types.Var]int{}, chanID: map[*types.Var]int{}, chClosed: map[*types.Var]bool{}, chSent: map[*types.Var]bool{}}
 	t.collectFields(pkgs)
+	t.collectChanOps(pkgs)
 	// pass 1: enumerate functions
 	for _, pkg := range pkgs {
 		if len(pkg.Errors) > 0 {
